@@ -244,7 +244,8 @@ structure EnumRule where
   lower : Bool              -- `str(x).lower()`
   allowed : List Str
   docAllowed : List Str     -- enumeration parsed from the message text ([] = none)
-  out : List Str
+  out : List Str            -- canonical path of the value in the returned config ([] = unknown)
+  folded : Bool             -- the tested (e.g. lower-cased) value is what is stored at `out`
   deriving Repr
 
 structure UnkRule where
@@ -556,11 +557,30 @@ def NumRule.outOk (e : Env) (out : List (K × J)) (r : NumRule) : Bool :=
     | some n => r.doc.holds n && (!(r.active e) || (r.co.range n && n.agree (r.outValue e)))
     | none => !(r.active e)
 
-def EnumRule.outOk (out : List (K × J)) (r : EnumRule) : Bool :=
+/-- The string the normalised config carries at the rule's output path: the folded copy when the
+code writes it back, the raw rendering otherwise. -/
+def EnumRule.normalised (e : Env) (r : EnumRule) : Option Str :=
+  pyStr (r.lower && r.folded) (r.val.eval e)
+
+/-- "accepted ⇒ the NORMALISED value lies in the documented enumeration" for one rule on one input. -/
+def EnumRule.outRangeOk (e : Env) (r : EnumRule) : Bool :=
+  !(condsHold e r.conds) || r.fires e ||
+    (match r.normalised e with
+     | some s => r.allowed.contains s
+     | none => false)
+
+/-- Output monitor on the configuration the implementation RETURNED: a value found at the rule's
+output path is a string of the enumeration (whether or not the rule was active), and when the rule
+was active and the model knows the normalised string, it is exactly that string. -/
+def EnumRule.outOk (e : Env) (out : List (K × J)) (r : EnumRule) : Bool :=
   if r.out.isEmpty then true else
   match outAt out r.out with
   | none => true
-  | some (.str s _ _ _) => r.allowed.contains s
+  | some (.str s _ _ _) =>
+    r.allowed.contains s &&
+      (!(condsHold e r.conds) || (match r.normalised e with
+        | some m => m == s
+        | none => true))
   | some _ => false
 
 /-! ### static soundness checker for guards (proved sound in `Clem/Proofs/Valid.lean`) -/
